@@ -19,7 +19,7 @@ def run(prop, relpath, old, new, extra=()):
         if s.count(old) != 1:
             print(f'pattern matches {s.count(old)} times'); return 99, ''
         open(p, 'w').write(s.replace(old, new))
-        env = dict(os.environ, REPO=tmp)
+        env = dict(os.environ, REPO=tmp, VF_NO_EVIDENCE='1')
         r = subprocess.run(['/verif/check', prop, '--no-bounded', *extra], capture_output=True, text=True, env=env)
         return r.returncode, r.stdout + r.stderr
     finally:
